@@ -102,6 +102,21 @@ def run(ck):
             progs[name] = L; groups.setdefault(ci, []).append(name)
             lines.append("prog " + name); lines.extend(L)
             ck.count((tmpl, a, b, c), kind=kind)
+    # append_evaluated_output with an output selector other than 0, 1, -1: inputs whose polynomial evaluates to
+    # exactly zero (all-zero default instance, cancelling values, value cancelled by the public input) next to
+    # inputs where it does not - wiring and witness count must not depend on it
+    for qi, qo in enumerate([9, 2, R - 2, RJ, rng.scalar() or 3]):
+        for ti, (tmpl, zero_vals) in enumerate([(f"evo 0 1 1 {hx(qo)} 0 0 - $0 $1 0 $2", [(0, 0, 0), (7, R - 7, 3), (R - 1, 1, 0)]),
+                                               (f"evo 1 0 0 {hx(qo)} 1 0 - $0 $1 0 $2", [(0, 5, 0), (3, 4, R - 12), (0, 0, 0)]),
+                                               (f"evo 0 1 0 {hx(qo)} 0 0 {hx(R - 5)} $0 $1 0 $2", [(5, 1, 2), (5, 0, 0)]),
+                                               (f"evo 0 0 0 {hx(qo)} 0 {hx(4)} {hx(R - 4)} $0 $1 0 $2", [(1, 2, 3), (0, 0, 0)])]):
+            ci = f"evoz{qi}_{ti}"
+            for j, (a, b, c) in enumerate(zero_vals + [(rng.scalar(), rng.scalar(), rng.scalar()), (1, 1, 1)]):
+                name = f"{ci}_{j}"
+                L = ["w " + hx(a), "w " + hx(b), "w " + hx(c), tmpl, "snap"]
+                progs[name] = L; groups.setdefault(ci, []).append(name)
+                lines.append("prog " + name); lines.extend(L)
+                ck.count((tmpl, a, b, c), kind="evo, zero-valued polynomial")
     pl, pp, pg = point_section(ck, rng, quick)
     lines += pl; progs.update(pp)
     for k_, v_ in pg.items(): groups["pt%s" % k_] = v_
